@@ -20,6 +20,18 @@ pub struct C10;
 
 pub const OPW: usize = 5; // ints per op: kind, p1..p4
 
+/// the answer of one request from a pristine state: guarded hooks reset the known process-wide state, and a
+/// brand-new thread gives pristine thread-local state (a memo added as a thread_local is invisible to the hooks)
+fn pristine_answer(op: &[i64]) -> String {
+  clean_state();
+  let o = op.to_vec();
+  std::thread::spawn(move || {
+    answer(&o)
+  })
+  .join()
+  .unwrap_or_else(|_| "REFUSED".to_string())
+}
+
 fn clean_state() {
   tyme4rs::tyme::lunar::verif_clear_poison();
   tyme4rs::tyme::eightchar::verif_clear_poison();
@@ -137,6 +149,53 @@ pub fn answer(op: &[i64]) -> String {
         format!("ORDER-DEPENDENT step: fresh [{}] after reading [{}]", a, b)
       }
     }
+    11 => {
+      // solar term by (year, index) incl. out-of-cycle indices that carry the year
+      let t = tyme4rs::tyme::solar::SolarTerm::from_index(p1 as isize, p2 as isize);
+      format!("{}|{}|{}|{}", t.get_year(), t.get_index(), t.get_cursory_julian_day(), t.get_julian_day().get_day())
+    }
+    12 => {
+      let d = sd(p1, p2, p3);
+      let td = d.get_term_day();
+      format!("{}|{}|{}|{}", td.get_solar_term().get_year(), td.get_solar_term().get_index(), td.get_day_index(), d.get_sixty_cycle_day())
+    }
+    13 => {
+      // Julian date (day number p1, p2 millionths of a day) -> civil day and instant
+      let jd = p1 as f64 + p2 as f64 / 1_000_000.0;
+      let j = tyme4rs::tyme::jd::JulianDay::from_julian_day(jd);
+      format!("{}|{}|{}", j.get_solar_day(), j.get_solar_time(), j.get_week())
+    }
+    14 => {
+      let d = sd(p1, p2, p3);
+      format!("{}|{}|{}|{}", d.get_julian_day().get_day(), d.next(p4 as isize), d.get_index_in_year(), d.get_solar_week((p4.rem_euclid(7)) as usize).get_index_in_year())
+    }
+    15 => {
+      let m = tyme4rs::tyme::solar::SolarMonth::from_ym(p1 as isize, p2 as usize);
+      format!("{}|{}|{}|{}", m.get_day_count(), m.get_week_count((p3.rem_euclid(7)) as usize), m.get_days().len(), m.get_days().first().map(|x| x.get_julian_day().get_day()).unwrap_or(0.0))
+    }
+    16 => {
+      let m = tyme4rs::tyme::sixtycycle::SixtyCycleMonth::from_index(p1 as isize, p2 as isize);
+      format!("{}|{}", m, m.get_first_day())
+    }
+    17 => {
+      // an hour-level query must not change what the hour's day answers
+      let t = SolarTime::from_ymd_hms(p1 as isize, p2 as usize, p3 as usize, (p4 % 24) as usize, 30, 0);
+      let day_views = |l: &LunarDay| format!("{}|{}|{}|{}|{}", l, l.get_sixty_cycle_day(), l.get_duty(), l.get_twelve_star(), l.get_sixty_cycle());
+      let a = {
+        let h = t.get_lunar_hour();
+        day_views(&h.get_lunar_day())
+      };
+      let b = {
+        let h = t.get_lunar_hour();
+        let _ = (h.get_sixty_cycle_hour(), h.get_twelve_star(), h.get_recommends().len());
+        day_views(&h.get_lunar_day())
+      };
+      if a == b {
+        a
+      } else {
+        format!("ORDER-DEPENDENT hour/day: day first [{}] after hour-level queries [{}]", a, b)
+      }
+    }
     _ => "BADOP".to_string(),
   });
   match r {
@@ -158,6 +217,13 @@ fn op_desc(op: &[i64]) -> String {
     8 => format!("LunarMonth::from_ym({},{}).next({})", op[1], op[2], op[3]),
     9 => format!("LunarDay::new({},{},{}).next({}) all views, with and without reading the source day first", op[1], op[2], op[3], op[4] / 2 - 20),
     10 => format!("SolarTime({}-{}-{} {}:15).get_lunar_hour().next({}) all views, with and without reading the source hour first", op[1], op[2], op[3], (op[4] / 2) % 24, op[4] / 48 - 6),
+    11 => format!("SolarTerm::from_index({},{})", op[1], op[2]),
+    12 => format!("SolarDay({}-{}-{}).get_term_day()/get_sixty_cycle_day()", op[1], op[2], op[3]),
+    13 => format!("JulianDay({}+{}e-6).get_solar_day()/get_solar_time()/get_week()", op[1], op[2]),
+    14 => format!("SolarDay({}-{}-{}) julian day, next({}), index in year, week index in year", op[1], op[2], op[3], op[4]),
+    15 => format!("SolarMonth({},{}) day count, week count, day list", op[1], op[2]),
+    16 => format!("SixtyCycleMonth::from_index({},{}).get_first_day()", op[1], op[2]),
+    17 => format!("SolarTime({}-{}-{} {}:30).get_lunar_hour(): its day's views before and after hour-level queries", op[1], op[2], op[3], op[4] % 24),
     _ => "?".into(),
   }
 }
@@ -262,6 +328,7 @@ fn op_strategy() -> impl Strategy<Value = Vec<i64>> {
     4 => (0..POOL_YEARS.len()).prop_map(|i| POOL_YEARS[i].clamp(1, 9998)),
     6 => 1i64..=9998,
   ];
+  let civil_year2 = civil_year.clone();
   let valid_month = (year.clone(), 0usize..13).prop_map(|(y, k)| {
     let ms = valid_months(y);
     (y, ms[k * ms.len() / 13])
@@ -286,6 +353,13 @@ fn op_strategy() -> impl Strategy<Value = Vec<i64>> {
     6 => (valid_month.clone(), 1i64..=29, 0i64..80).prop_map(|((y, m), d, q)| vec![9, y.clamp(25, 9998), if valid_months(y.clamp(25, 9998)).contains(&m) { m } else { m.abs() }, d, q]),
     4 => (date.clone(), 0i64..576).prop_map(|((y, m, d), q)| vec![10, y.clamp(25, 9998), m, d.min(28), q]),
     4 => (valid_month.clone(), -14i64..=14).prop_map(|((y, m), n)| vec![8, y.clamp(2, 9997), if valid_months(y.clamp(2, 9997)).contains(&m) { m } else { m.abs() }, n, 0]),
+    4 => (civil_year2.clone(), -3i64..=27).prop_map(|(y, i)| vec![11, y, i, 0, 0]),
+    4 => date.clone().prop_map(|(y, m, d)| vec![12, y, m, d, 0]),
+    4 => (1_722_000i64..5_373_000, prop_oneof![Just(0i64), Just(500_000), Just(499_994), Just(999_994), Just(999_998), 0i64..1_000_000]).prop_map(|(n, f)| vec![13, n, f, 0, 0]),
+    3 => (date.clone(), -40i64..=40).prop_map(|((y, m, d), n)| vec![14, y, m, d, n]),
+    3 => (civil_year2.clone(), 1i64..=12, 0i64..7).prop_map(|(y, m, s)| vec![15, y, m, s, 0]),
+    3 => (civil_year2.clone(), 0i64..=25).prop_map(|(y, i)| vec![16, y.min(9997), i, 0, 0]),
+    4 => (date.clone(), 0i64..24).prop_map(|((y, m, d), h)| vec![17, y.clamp(25, 9998), m, d.min(28), h]),
     // refused requests (invalid month, missing leap month, bad day, bad year, unreachable child limit)
     4 => (year.clone(), prop_oneof![Just(0i64), Just(13), Just(-13), Just(14), Just(-14)]).prop_map(|(y, m)| vec![0, y, m, 0, 0]),
     4 => (year.clone(), 1i64..=12).prop_map(|(y, k)| {
@@ -302,7 +376,25 @@ fn op_strategy() -> impl Strategy<Value = Vec<i64>> {
 }
 
 fn history_strategy(maxlen: usize) -> impl Strategy<Value = Case> {
-  proptest::collection::vec(op_strategy(), 1..maxlen).prop_map(|ops| Case::ints(&ops.concat()))
+  // half of the histories are "clusters": every request is moved into the three years around one base year, so that
+  // requests about neighbouring years/months (where a mis-keyed memo would confuse them) follow each other
+  (proptest::collection::vec(op_strategy(), 1..maxlen), prop_oneof![1 => Just(-1i64), 1 => 30i64..9990]).prop_map(|(mut ops, base)| {
+    if base >= 0 {
+      for (k, op) in ops.iter_mut().enumerate() {
+        if op[0] != 13 && (0..=9999).contains(&op[1]) {
+          op[1] = base + (k as i64 % 3) - 1;
+          if op[0] == 0 || op[0] == 1 || op[0] == 8 || op[0] == 9 {
+            // keep the month valid for the new year
+            let ms = valid_months(op[1]);
+            if !ms.contains(&op[2]) && op[2].abs() >= 1 && op[2].abs() <= 12 && ms.contains(&op[2].abs()) {
+              op[2] = op[2].abs();
+            }
+          }
+        }
+      }
+    }
+    Case::ints(&ops.concat())
+  })
 }
 
 fn ops_of(case: &Case) -> Vec<Vec<i64>> {
@@ -310,7 +402,7 @@ fn ops_of(case: &Case) -> Vec<Vec<i64>> {
 }
 
 fn is_lunar_op(op: &[i64]) -> bool {
-  matches!(op[0], 0..=10)
+  matches!(op[0], 0..=17)
 }
 
 /// classify a history (non-trivial rule) and count generator classes
@@ -374,10 +466,7 @@ impl C10 {
     let mut refs: Vec<String> = Vec::with_capacity(ops.len());
     let mut memo: BTreeMap<Vec<i64>, String> = BTreeMap::new();
     for op in &ops {
-      let r = memo.entry(op.clone()).or_insert_with(|| {
-        clean_state();
-        answer(op)
-      });
+      let r = memo.entry(op.clone()).or_insert_with(|| pristine_answer(op));
       refs.push(r.clone());
     }
     let nt = classify(out, &ops, &refs);
@@ -394,8 +483,10 @@ impl C10 {
       }
     }
     clean_state();
+    let ops_t = ops.clone();
+    let got_all: Vec<String> = std::thread::spawn(move || ops_t.iter().map(|o| answer(o)).collect()).join().unwrap_or_default();
     for (pos, op) in ops.iter().enumerate() {
-      let got = answer(op);
+      let got = got_all.get(pos).cloned().unwrap_or_else(|| "MISSING".to_string());
       if got != refs[pos] {
         let hist: Vec<String> = ops[..=pos].iter().map(|o| op_desc(o)).collect();
         let kind = if refs[pos] == "REFUSED" {
@@ -429,10 +520,20 @@ impl C10 {
       Some(String::from_utf8_lossy(&o.stdout).lines().map(|l| l.to_string()).collect())
     };
     let whole = run(&case.a);
+    thread_local! {
+      static ALONE: std::cell::RefCell<HashMap<Vec<i64>, String>> = std::cell::RefCell::new(HashMap::new());
+    }
     let mut alone: Vec<String> = vec![];
     for op in &ops {
+      if let Some(a) = ALONE.with(|m| m.borrow().get(op).cloned()) {
+        alone.push(a);
+        continue;
+      }
       match run(op) {
-        Some(v) if v.len() == 1 => alone.push(v[0].clone()),
+        Some(v) if v.len() == 1 => {
+          ALONE.with(|m| m.borrow_mut().insert(op.clone(), v[0].clone()));
+          alone.push(v[0].clone())
+        }
         _ => {
           out.skip("fresh_process_failed");
           return;
@@ -509,7 +610,7 @@ impl Prop for C10 {
   }
   fn meta(&self, _env: &Env) -> Meta {
     Meta {
-      rule: "Requests: LunarMonth::from_ym, LunarDay::new (+3 getter orders over the per-value memos), SolarDay->lunar, SixtyCycleDay, LunarFestival::from_index, eight characters, ChildLimit, LunarYear month list, LunarMonth::next; each answer is a canonical string of all observable fields, a refusal (Err or panic) is REFUSED. Generators: (1) `collide`: both orders of every pair of valid (year, month) requests whose undelimited concatenation year||month or month||year coincides (complete), and `collide_arith`: both orders of pairs that coincide under 25 arithmetic key functions (year*k+month, year*k+|month| for k in 10..64, leap twins, xor/shift packings), up to 400/4000 pairs per function; (2) `history`: proptest vec(op, 1..60), 40% of years from a 30-year pool of neighbouring/colliding years, ~22% injected refused requests (month 0/13/-13, leap month the year lacks, day 0/31/32, year -2/-1/10000, child limits ending outside the supported range or in the 1582 gap); (3) `threads`: proptest-generated request lists issued by 16 threads from a shared queue; (4) `fresh`: proptest histories executed in a fresh process and each request alone in its own fresh process (no hooks). Oracle: answer inside the history == answer of the same request from a pristine state (memo emptied, lock poison cleared through the guarded hooks) == answer in a fresh process. Non-trivial: the history contains two lunar-month requests with equal concatenated digits, a month and its leap twin, or a refusal followed by at least one valid request; every threaded round is non-trivial. Distinct = distinct op sequences.".into(),
+      rule: "Requests: LunarMonth::from_ym, LunarDay::new (+3 getter orders over the per-value memos), SolarDay->lunar, SixtyCycleDay, LunarFestival::from_index, eight characters, ChildLimit, LunarYear month list, LunarMonth::next; each answer is a canonical string of all observable fields, a refusal (Err or panic) is REFUSED. Generators: (1) `collide`: both orders of every pair of valid (year, month) requests whose undelimited concatenation year||month or month||year coincides (complete), and `collide_arith`: both orders of pairs that coincide under 25 arithmetic key functions (year*k+month, year*k+|month| for k in 10..64, leap twins, xor/shift packings), up to 400/4000 pairs per function; (2) `history`: proptest vec(op, 1..60), 40% of years from a 30-year pool of neighbouring/colliding years, ~22% injected refused requests (month 0/13/-13, leap month the year lacks, day 0/31/32, year -2/-1/10000, child limits ending outside the supported range or in the 1582 gap); (3) `threads`: proptest-generated request lists issued by 16 threads from a shared queue; (4) `fresh`: proptest histories executed in a fresh process and each request alone in its own fresh process (no hooks). Half of the histories are clusters (all requests moved into the three years around one base year). Requests also cover solar terms incl. year-carrying indices, day->term, Julian date -> day/instant/weekday, civil day arithmetic, civil month lists, sexagenary months, and single requests that internally compare 'views read first' with 'not read' (reported as ORDER-DEPENDENT). Oracle: answer inside the history (run in its own fresh thread) == answer of the same request from a pristine state (guarded hooks empty the memo and clear lock poison; a brand-new thread gives pristine thread-locals) == answer in a fresh process. Non-trivial: the history contains two lunar-month requests with equal concatenated digits, a month and its leap twin, or a refusal followed by at least one valid request; every threaded round is non-trivial. Distinct = distinct op sequences.".into(),
       assumptions: vec![
         "The in-process oracle trusts the verif-hooks reset/clear_poison accessors to restore a pristine state; the `fresh` sub-check does not use them and cross-checks this on sampled histories".into(),
         "Thread interleavings are whatever the OS scheduler produces in this run (sampled, not enumerated); a threaded violation may not reproduce from its replay file".into(),
@@ -542,6 +643,34 @@ impl Prop for C10 {
         out.set_exhaustive("collide_arith", false);
       }
       "history" => {
+        // natural enumerations issued backwards: the months of a year descending, civil days walking back through a
+        // leap month and through New Year, day by day, for the lunar, sexagenary-day and term views
+        let c = cal();
+        let ys = stratified_years(30, 9990, env.tier.pick(150, 12), &[2020, 2023, 2033, 2034, 1984, 3358], env.seed);
+        for (k, y) in ys.iter().enumerate() {
+          if k % nshards != shard {
+            continue;
+          }
+          let mut ops: Vec<i64> = vec![];
+          let mut ms = valid_months(*y);
+          ms.sort_by_key(|m| (m.abs() * 2 + (*m < 0) as i64));
+          for m in ms.iter().rev() {
+            ops.extend_from_slice(&[0, *y, *m, 0, 0]);
+          }
+          run_case(env, out, "history", &Case::ints(&ops), &ev);
+          for kind in [2i64, 3, 12] {
+            // 70 days backwards from Feb 20 (through New Year) and from the middle of the year
+            for (m0, d0) in [(2i64, 20i64), (7, 15)] {
+              let i0 = c.index(*y, m0, d0).unwrap();
+              let mut ops: Vec<i64> = vec![];
+              for back in (0..70).step_by(if kind == 2 { 1 } else { 3 }) {
+                let (yy, mm, dd) = c.ymd(i0 - back);
+                ops.extend_from_slice(&[kind, yy, mm, dd, 0]);
+              }
+              run_case(env, out, "history", &Case::ints(&ops), &ev);
+            }
+          }
+        }
         let total: u32 = env.tier.pick(4_000, 160_000);
         prop_run(env, out, "history", total / nshards as u32, shard as u64, history_strategy(60), &ev);
         out.set_exhaustive("history", false);
@@ -556,8 +685,22 @@ impl Prop for C10 {
         out.set_exhaustive("threads", false);
       }
       "fresh" => {
-        let total: u32 = env.tier.pick(64, 2048);
-        prop_run(env, out, "fresh", total / nshards as u32, 100 + shard as u64, history_strategy(24), &ev);
+        // two-request histories in fresh processes for requests whose year/month digits collide, for the lunar
+        // month constructor and for civil dates (a memo added anywhere on the civil path would be keyed the same way)
+        let pairs = colliding_pairs();
+        let step = (pairs.len() / env.tier.pick(48, 600)).max(1);
+        for (k, p) in pairs.iter().enumerate().filter(|(k, _)| k % step == 0) {
+          if k / step % nshards != shard {
+            continue;
+          }
+          run_case(env, out, "fresh", &Case::ints(&[0, p[0], p[1], 0, 0, 0, p[2], p[3], 0, 0]), &ev);
+          if p[0] >= 1 && p[2] >= 1 && p[1] > 0 && p[3] > 0 {
+            run_case(env, out, "fresh", &Case::ints(&[14, p[0], p[1], 5, 3, 14, p[2], p[3], 5, 3]), &ev);
+            run_case(env, out, "fresh", &Case::ints(&[2, p[0], p[1], 5, 0, 12, p[2], p[3], 5, 0]), &ev);
+          }
+        }
+        let total: u32 = env.tier.pick(480, 8000);
+        prop_run(env, out, "fresh", total / nshards as u32, 100 + shard as u64, history_strategy(16), &ev);
         out.set_exhaustive("fresh", false);
       }
       _ => panic!("unknown task {}", t),
